@@ -5,6 +5,7 @@
 package main
 
 import (
+	"verif/shim/vsched"
 	"encoding/json"
 	"flag"
 	"fmt"
@@ -164,6 +165,36 @@ func main() {
 	}
 	rep := &Report{Property: *prop, Tier: *tier, Shard: env.Shard, NShards: env.NShards, Exhaustive: true}
 	t0 := time.Now()
+	// a gateway goroutine that loops without ever reaching a scheduling point cannot be preempted or ended by
+	// the cooperative scheduler: report it (it is a busy loop in the code under test) and stop this worker
+	vsched.OnStuck = func(thread, last, stacks string) {
+		gw := ""
+		for _, blk := range strings.Split(stacks, "\n\n") {
+			if strings.Contains(blk, "[running]") || strings.Contains(blk, "[runnable]") {
+				if i := strings.Index(blk, "github.com/bolkedebruin/rdpgw/"); i >= 0 {
+					j := strings.IndexByte(blk[i:], '\n')
+					gw = shortFn(strings.TrimSpace(blk[i : i+j]))
+					if k := strings.Index(gw, "("); k > 0 {
+						gw = gw[:k]
+					}
+					break
+				}
+			}
+		}
+		name := strings.SplitN(thread, "-", 2)[0]
+		rep.violate(*prop+"/goroutine-spins-without-reaching-a-scheduling-point:"+name+"/"+curScenario,
+			fmt.Sprintf("thread %s ran for more than %v after its scheduling point %q without reaching another one (innermost gateway frame: %s): a loop without I/O, locking or channel operations", thread, vsched.StuckAfter, last, gw),
+			map[string]any{"noreplay": true})
+		rep.capf("stopped at a busy loop in scenario %s", curScenario)
+		rep.WallS = time.Since(t0).Seconds()
+		b, _ := json.MarshalIndent(rep, "", " ")
+		if *out != "" {
+			os.WriteFile(*out, b, 0o644)
+		} else {
+			os.Stdout.Write(b)
+		}
+		os.Exit(0)
+	}
 	func() {
 		defer func() {
 			if r := recover(); r != nil {
@@ -192,6 +223,9 @@ func main() {
 		os.Exit(2)
 	}
 }
+
+// curScenario names what is being executed (for reports made from outside the scenario code).
+var curScenario string
 
 type infraErr string
 
